@@ -135,106 +135,109 @@ def run(eng, R):
     check_snapshot_complete(eng, R, "Csl")
 
     # ---- nobody keeps a reference to a fit's fitter / minimizer: the fit replaces them (MultiFit members, first shared error) and a kept one still writes into the shared nodes
-    R.rule("Cref", "objects working on a fit (profiler, plots, wrappers) reach its fitter / minimizer through the fit at the time of the query; none stores the reference", 1)
-    fitbase = p.find_class("FitBase")
-    n_cls = 0
-    for m in p.modules.values():
-        for cls in m.classes.values():
-            if fitbase in cls.mro or cls.name in ("NexusFitter",) or cls.name.startswith("Minimizer"):
-                continue
-            uses = any("_fitter" in ast.unparse(fn.node) for fn in cls.methods.values())
-            if not uses:
-                continue
-            n_cls += 1
-            bad = []
-            for fn in cls.methods.values():
-                for a in ast.walk(fn.node):
-                    if isinstance(a, ast.Assign) and any(self_attr(t) for t in a.targets):
-                        v = a.value
-                        chain = []
-                        while isinstance(v, ast.Attribute):
-                            chain.append(v.attr)
-                            v = v.value
-                        if any(x in ("_fitter", "_minimizer", "minimizer") for x in chain):
-                            bad.append("%s: %s" % (fn.qualname, " ".join(ast.unparse(a).split())[:70]))
-            R.ob("Cref", cls.name, not bad, (m.relpath, 0),
-                 "%s keeps a reference to a fit's fitter / minimizer (%s): after the fit replaced it, queries go to the discarded object, which accepts them and writes its old "
-                 "minimum back into the fit's parameter nodes" % (cls.name, "; ".join(bad)))
-    if n_cls < 1:
-        raise AnalysisError("Cref: no class outside the fit hierarchy uses a fit's fitter")
+    with R.guard("nobody keeps a reference to a fit's fitter / minimizer: the "):
+        R.rule("Cref", "objects working on a fit (profiler, plots, wrappers) reach its fitter / minimizer through the fit at the time of the query; none stores the reference", 1)
+        fitbase = p.find_class("FitBase")
+        n_cls = 0
+        for m in p.modules.values():
+            for cls in m.classes.values():
+                if fitbase in cls.mro or cls.name in ("NexusFitter",) or cls.name.startswith("Minimizer"):
+                    continue
+                uses = any("_fitter" in ast.unparse(fn.node) for fn in cls.methods.values())
+                if not uses:
+                    continue
+                n_cls += 1
+                bad = []
+                for fn in cls.methods.values():
+                    for a in ast.walk(fn.node):
+                        if isinstance(a, ast.Assign) and any(self_attr(t) for t in a.targets):
+                            v = a.value
+                            chain = []
+                            while isinstance(v, ast.Attribute):
+                                chain.append(v.attr)
+                                v = v.value
+                            if any(x in ("_fitter", "_minimizer", "minimizer") for x in chain):
+                                bad.append("%s: %s" % (fn.qualname, " ".join(ast.unparse(a).split())[:70]))
+                R.ob("Cref", cls.name, not bad, (m.relpath, 0),
+                     "%s keeps a reference to a fit's fitter / minimizer (%s): after the fit replaced it, queries go to the discarded object, which accepts them and writes its old "
+                     "minimum back into the fit's parameter nodes" % (cls.name, "; ".join(bad)))
+        if n_cls < 1:
+            raise AnalysisError("Cref: no class outside the fit hierarchy uses a fit's fitter")
 
     # ---- generic helpers of MinimizerBase (analysed for both adapters' contexts through the queries above) + fix/release pairing
-    for fn in ("_get_cost_value",):
-        f = p.method(MB, fn)
-        _fix_release(eng, R, f, f.node)
-    fc = p.method(MB, "_find_cost_cut")
-    nested = [n for n in fc.node.body if isinstance(n, ast.FunctionDef)]
-    if not nested:
-        raise AnalysisError("_find_cost_cut: nested profile function not found")
-    _fix_release(eng, R, fc, nested[0])
+    with R.guard("generic helpers of MinimizerBase (analysed for both adapters"):
+        for fn in ("_get_cost_value",):
+            f = p.method(MB, fn)
+            _fix_release(eng, R, f, f.node)
+        fc = p.method(MB, "_find_cost_cut")
+        nested = [n for n in fc.node.body if isinstance(n, ast.FunctionDef)]
+        if not nested:
+            raise AnalysisError("_find_cost_cut: nested profile function not found")
+        _fix_release(eng, R, fc, nested[0])
 
     # ---- Cmin2
-    inv = p.method(MB, "_invalidate_cache")
-    cleared = {self_attr(t) for n in ast.walk(inv.node) if isinstance(n, ast.Assign) and isinstance(n.value, ast.Constant) and n.value.value is None for t in n.targets}
-    lazy = set()
-    for pr in MB.props.values():
-        if pr.fget is None:
-            continue
-        for n in ast.walk(pr.fget.node):
-            if isinstance(n, ast.If) and isinstance(n.test, ast.Compare) and isinstance(n.test.ops[0], ast.Is) and isinstance(n.test.comparators[0], ast.Constant) and n.test.comparators[0].value is None:
-                a = self_attr(n.test.left)
-                if a:
-                    lazy.add(a)
-    R.ob("Cmin2", "MinimizerBase._invalidate_cache", lazy <= cleared and len(lazy) >= 5, eng.where(inv), "_invalidate_cache does not clear the lazily computed fields %s" % sorted(lazy - cleared))
-    rs = p.method(MB, "reset")
-    src = ast.unparse(rs.node)
-    R.ob("Cmin2", "MinimizerBase.reset", "self._invalidate_cache()" in src and "self._did_fit = False" in src, eng.where(rs), "reset must invalidate the caches and clear the did-fit flag")
-    im = p.find_class("MinimizerIMinuit")
-    iinv = p.method(im, "_invalidate_cache")
-    src = ast.unparse(iinv.node)
-    R.ob("Cmin2", "MinimizerIMinuit._invalidate_cache", all(x in src for x in ("self._par_val = None", "self._par_err = None", "self._fmin_struct = None", "_invalidate_cache()")), eng.where(iinv),
-         "the iminuit adapter's _invalidate_cache must clear its own value/error/fmin caches and chain to the base class")
-    irs = p.method(im, "reset")
-    src = ast.unparse(irs.node)
-    R.ob("Cmin2", "MinimizerIMinuit.reset", "reset()" in src and "__iminuit = None" in src, eng.where(irs), "the iminuit adapter's reset must drop the backend object and chain to the base class")
-    # did-fit cleared only by mutators / restored by _load_state
-    for an in ADAPTERS + ["MinimizerBase"]:
-        ctx = p.find_class(an)
-        for f in cache.visible_functions(ctx):
-            if f.cls is not ctx:
+    with R.guard("Cmin2"):
+        inv = p.method(MB, "_invalidate_cache")
+        cleared = {self_attr(t) for n in ast.walk(inv.node) if isinstance(n, ast.Assign) and isinstance(n.value, ast.Constant) and n.value.value is None for t in n.targets}
+        lazy = set()
+        for pr in MB.props.values():
+            if pr.fget is None:
                 continue
-            for n in ast.walk(f.node):
-                if isinstance(n, ast.Assign) and any(self_attr(t) == "_did_fit" for t in n.targets):
-                    val = ast.unparse(n.value)
-                    allowed = f.name in ("__init__", "reset", "minimize", "_load_state")
-                    R.ob("Cmin2", "%s:_did_fit=%s" % (f.qualname, val[:30]), allowed, eng.where(f, n), "%s writes the did-fit flag (%s) outside reset/minimize/_load_state" % (f.qualname, val))
+            for n in ast.walk(pr.fget.node):
+                if isinstance(n, ast.If) and isinstance(n.test, ast.Compare) and isinstance(n.test.ops[0], ast.Is) and isinstance(n.test.comparators[0], ast.Constant) and n.test.comparators[0].value is None:
+                    a = self_attr(n.test.left)
+                    if a:
+                        lazy.add(a)
+        R.ob("Cmin2", "MinimizerBase._invalidate_cache", lazy <= cleared and len(lazy) >= 5, eng.where(inv), "_invalidate_cache does not clear the lazily computed fields %s" % sorted(lazy - cleared))
+        rs = p.method(MB, "reset")
+        src = ast.unparse(rs.node)
+        R.ob("Cmin2", "MinimizerBase.reset", "self._invalidate_cache()" in src and "self._did_fit = False" in src, eng.where(rs), "reset must invalidate the caches and clear the did-fit flag")
+        im = p.find_class("MinimizerIMinuit")
+        iinv = p.method(im, "_invalidate_cache")
+        src = ast.unparse(iinv.node)
+        R.ob("Cmin2", "MinimizerIMinuit._invalidate_cache", all(x in src for x in ("self._par_val = None", "self._par_err = None", "self._fmin_struct = None", "_invalidate_cache()")), eng.where(iinv),
+             "the iminuit adapter's _invalidate_cache must clear its own value/error/fmin caches and chain to the base class")
+        irs = p.method(im, "reset")
+        src = ast.unparse(irs.node)
+        R.ob("Cmin2", "MinimizerIMinuit.reset", "reset()" in src and "__iminuit = None" in src, eng.where(irs), "the iminuit adapter's reset must drop the backend object and chain to the base class")
+        # did-fit cleared only by mutators / restored by _load_state
+        for an in ADAPTERS + ["MinimizerBase"]:
+            ctx = p.find_class(an)
+            for f in cache.visible_functions(ctx):
+                if f.cls is not ctx:
+                    continue
+                for n in ast.walk(f.node):
+                    if isinstance(n, ast.Assign) and any(self_attr(t) == "_did_fit" for t in n.targets):
+                        val = ast.unparse(n.value)
+                        allowed = f.name in ("__init__", "reset", "minimize", "_load_state")
+                        R.ob("Cmin2", "%s:_did_fit=%s" % (f.qualname, val[:30]), allowed, eng.where(f, n), "%s writes the did-fit flag (%s) outside reset/minimize/_load_state" % (f.qualname, val))
 
     # ---- NexusFitter write-back
-    NF = p.find_class("NexusFitter")
-    mn = p.method(NF, "_minimize")
-    g = eng.cfg(mn)
+    with R.guard("NexusFitter writeback"):
+        NF = p.find_class("NexusFitter")
+        mn = p.method(NF, "_minimize")
+        g = eng.cfg(mn)
 
-    def is_min(n):
-        return any(isinstance(c.func, ast.Attribute) and c.func.attr == "minimize" and self_attr(c.func.value) == "_minimizer" for c in eng.calls_in_parts(n.ast_parts()))
+        def is_min(n):
+            return any(isinstance(c.func, ast.Attribute) and c.func.attr == "minimize" and self_attr(c.func.value) == "_minimizer" for c in eng.calls_in_parts(n.ast_parts()))
 
-    def is_wb(n):
-        return any(isinstance(c.func, ast.Attribute) and c.func.attr == "_fcn_wrapper" and is_self(c.func.value) for c in eng.calls_in_parts(n.ast_parts()))
+        def is_wb(n):
+            return any(isinstance(c.func, ast.Attribute) and c.func.attr == "_fcn_wrapper" and is_self(c.func.value) for c in eng.calls_in_parts(n.ast_parts()))
 
-    def sets_flag(n):
-        st = n.stmt
-        return n.kind == "stmt" and isinstance(st, ast.Assign) and any(self_attr(t) == "__state_is_from_minimizer" for t in st.targets) and isinstance(st.value, ast.Constant) and st.value.value is True
+        def sets_flag(n):
+            st = n.stmt
+            return n.kind == "stmt" and isinstance(st, ast.Assign) and any(self_attr(t) == "__state_is_from_minimizer" for t in st.targets) and isinstance(st.value, ast.Constant) and st.value.value is True
 
-    mins = [n for n in g.stmt_nodes() if is_min(n)]
-    ok = bool(mins) and all(g.all_paths_pass(n.id, is_wb)[0] for n in mins)
-    R.ob("Cwb", "NexusFitter._minimize:write-back", ok, eng.where(mn), "after minimizing the graph is not re-evaluated at the minimizer's final parameter values (graph and backend can disagree)")
-    flags = [n for n in g.stmt_nodes() if sets_flag(n)]
-    ok = bool(flags) and all(g.dominated_by(n.id, is_min)[0] for n in flags)
-    R.ob("Cwb", "NexusFitter._minimize:flag", ok, eng.where(mn), "the did-fit flag must be set only after the minimization")
-    wb = p.method(NF, "_fcn_wrapper")
-    src = ast.unparse(wb.node)
-    R.ob("Cwb", "NexusFitter._fcn_wrapper", "_par.value = _new_value" in src and "zip(self._fit_pars, fit_par_value_list)" in src and "return self._min_par.value" in src, eng.where(wb),
-         "the objective wrapper must assign every fit parameter node and return the value of the node being minimised")
-
+        mins = [n for n in g.stmt_nodes() if is_min(n)]
+        ok = bool(mins) and all(g.all_paths_pass(n.id, is_wb)[0] for n in mins)
+        R.ob("Cwb", "NexusFitter._minimize:write-back", ok, eng.where(mn), "after minimizing the graph is not re-evaluated at the minimizer's final parameter values (graph and backend can disagree)")
+        flags = [n for n in g.stmt_nodes() if sets_flag(n)]
+        ok = bool(flags) and all(g.dominated_by(n.id, is_min)[0] for n in flags)
+        R.ob("Cwb", "NexusFitter._minimize:flag", ok, eng.where(mn), "the did-fit flag must be set only after the minimization")
+        wb = p.method(NF, "_fcn_wrapper")
+        src = ast.unparse(wb.node)
+        R.ob("Cwb", "NexusFitter._fcn_wrapper", "_par.value = _new_value" in src and "zip(self._fit_pars, fit_par_value_list)" in src and "return self._min_par.value" in src, eng.where(wb),
+             "the objective wrapper must assign every fit parameter node and return the value of the node being minimised")
 
 def _fix_release(eng, R, f, node):
     g = CFG(node)
